@@ -102,26 +102,30 @@ def make_plan(ctx):
         c1, c2 = rng.sample([c for c in COUNTRIES if c not in ("SLV", "ALB", "ECU")], 2)
         pt = rng.choice(PATCHED)
         # the fourth pair reuses the patched pair's preset (hence, in a history, the same caller dictionary)
-        pairs = [pt, (c1, "baseline"), (c2, "baseline"), (c1, pt[1])]
+        # NZL is special-cased in compute_parameters_third_round (rule-of-thumb constant): it always precedes a run that
+        # reaches the same branch (ARG, nuclear winter, non-immediate shut-off)
+        pairs = [pt, (c1, "baseline"), (c2, "baseline"), (c1, pt[1]), ("NZL", "baseline"), ("ARG", "nw_plain")]
     else:
         cs = rng.sample([c for c in COUNTRIES if c not in ("SLV", "ALB", "ECU")], 5)
         pairs = rng.sample(PATCHED[:4], 2) + [PATCHED[4]] + [(c, "baseline") for c in cs[:3]]
-        while len(pairs) < 12:
+        pairs += [("NZL", "baseline"), ("ARG", "nw_plain")]
+        while len(pairs) < 14:
             cand = (rng.choice(cs + ["SLV", "ECU"]), rng.choice(others))
             if cand not in pairs:
                 pairs.append(cand)
     batches = []
     if ctx.quick:
         p = pairs
-        batches.append([run_step(i, [x[0]], x[1]) for i, x in enumerate(p)])
+        batches.append([run_step(i, [x[0]], x[1]) for i, x in enumerate([p[4], p[5]] + p[:4])])
         b, n = [], 0
         for i, x in enumerate(reversed(p)):
             b.append(ow_step(n, i)); n += 1
             b.append(run_step(n, [x[0]], x[1])); n += 1
         b.append(run_step(n, [p[3][0]], p[3][1]))            # repeated, after every other run
         batches.append(b)
-        order = p[:]
+        order = p[:4]
         rng.shuffle(order)
+        order = order[:2] + [p[4]] + order[2:] + [p[5]]
         b = [ow_step(0, rng.randrange(5)), run_step(1, [p[1][0], p[2][0]], "baseline")]   # two countries in ONE call
         n = 2
         for x in order:
@@ -130,7 +134,9 @@ def make_plan(ctx):
             b.append(run_step(n, [x[0]], x[1])); n += 1
         b.append(run_step(n, [order[0][0]], order[0][1])); n += 1
         b.append(run_step(n, [order[0][0]], order[0][1])); n += 1    # the same run twice in a row
-        b.append(run_step(n, [p[1][0]], "baseline", yaml_group="y0")); n += 1      # the yaml loop: two simulations, one country
+        # the real YAML driver on a temporary file: two simulations, one country; the first simulation carries its own
+        # NMONTHS (36), the second none (it must get the NMONTHS of "settings", as when it is run alone)
+        b.append(dict(run_step(n, [p[1][0]], "baseline", yaml_group="y0"), own_nmonths=36, nocompare=True)); n += 1
         b.append(run_step(n, [p[1][0]], p[3][1], yaml_group="y0"))
         batches.append(b)
     else:
@@ -155,7 +161,10 @@ def make_plan(ctx):
                 c = rng.choice(sorted({x[0] for x in pairs}))
                 sims = [x[1] for x in pairs if x[0] == c and PRESETS[x[1]]["NMONTHS"] == 120]
                 pos = rng.randrange(len(b) + 1)
-                b[pos:pos] = [run_step(n + i, [c], pz, yaml_group=f"y{k}") for i, pz in enumerate(sims)]
+                grp = [run_step(n + i, [c], pz, yaml_group=f"y{k}") for i, pz in enumerate(sims)]
+                if len(grp) > 1 and k % 2 == 0:
+                    grp[0] = dict(grp[0], own_nmonths=rng.choice([24, 36, 60]), nocompare=True)
+                b[pos:pos] = grp
             batches.append(b)
     return pairs, batches
 
@@ -246,7 +255,7 @@ def analyse_batch(ctx, bname, out, steps, alone, canon, name_of):
             pre = "[" + "; ".join(f"Rv {canon.c(c)} {canon.v(f)}" for c, f in pending) + "]"
             post_cells = extra if ci == len(cnames) - 1 else []
             post = "[" + "; ".join(f"Wv {canon.c(d['cell'])} {canon.v(d['after'])}" for d in post_cells) + "]"
-            a = alone.get((iso, preset))
+            a = None if steps[si].get("nocompare") else alone.get((iso, preset))
             if a is not None and a.get("al_name") is not None:
                 al = a["al_name"]          # defined once in the compiled file c14_alone_0.v
             else:
@@ -396,7 +405,10 @@ def run(ctx):
             for iso in st["countries"]:
                 pr = (iso, st["preset"])
                 a = alone.get(pr)
-                if a is None:
+                if a is None or st.get("nocompare"):
+                    # (a simulation with its own NMONTHS: what the driver makes of it is not C14's business; it is there
+                    # for what it leaves behind for the next simulation)
+                    left = ("run", "own-nmonths")
                     continue
                 sg = sig_of(so, a["cname"])
                 if not so["ok"]:
@@ -512,6 +524,11 @@ def report_difference(ctx, hist, si, pr, a, so, k):
     """shrink to a two-step history when possible, then file the violation with both histories"""
     target = run_step(99, [pr[0]], pr[1])
     cands = []
+    if hist[si].get("yaml_group") is not None:
+        # the other simulations of the same YAML file that precede it, then the simulation itself, through the driver
+        grp = [x for x in hist[:si] if x.get("yaml_group") == hist[si]["yaml_group"]]
+        if grp:
+            cands.append(grp + [hist[si]])
     for j in range(si):
         cands.append([dict(hist[j], id=f"p{j}"), target])
     if len(hist[si]["countries"]) > 1:
